@@ -129,6 +129,40 @@ def line_of(code, offset) -> int:
     return code.co_firstlineno
 
 
+# ------------------------------------------------------------------------------------------ writes to shared state
+_STORE_PTS: dict = {}
+
+
+def store_points(mod, names) -> dict:
+    """code object -> frozenset of the offsets of the instructions that directly FOLLOW a write to shared state in that code object:
+    STORE_ATTR to one of `names` (all attributes when `names` is empty), STORE_SUBSCR and DELETE_SUBSCR (dictionary updates).  Used by
+    the race-directed strategy "store": a pre-emption right after such a write lets another thread observe the intermediate state
+    (clear-then-set publication, read-modify-write split, test-then-act).  Computed once per module and name set with `dis`."""
+    import dis
+    key = (mod.__name__, tuple(sorted(names or ())))
+    hit = _STORE_PTS.get(key)
+    if hit is not None and hit[0] is mod:
+        return hit[1]
+    want = set(names or ())
+    out = {}
+    for c in code_objects(mod):
+        pts = set()
+        prev = None
+        for ins in dis.get_instructions(c):
+            if prev is not None:
+                pts.add(ins.offset)
+                prev = None
+            if ins.opname == "STORE_ATTR":
+                if not want or ins.argval in want:
+                    prev = ins
+            elif ins.opname in ("STORE_SUBSCR", "DELETE_SUBSCR"):
+                prev = ins
+        if pts:
+            out[c] = frozenset(pts)
+    _STORE_PTS[key] = (mod, out)
+    return out
+
+
 # ------------------------------------------------------------------------------------------ threads
 class SThread:
     __slots__ = ("idx", "name", "kind", "fn", "args", "kwargs", "state", "baton", "os_thread", "tid", "error",
@@ -439,6 +473,23 @@ def sync_only_variant(run_seed: int, sched: dict, share: float = 0.22, focus_nam
     return s
 
 
+def store_variant(run_seed: int, sched: dict, share: float = 0.12, names=()) -> dict:
+    """A share of the runs (own PRNG stream) uses the race-directed strategy "store": a coin is thrown right after every write to
+    shared state (STORE_ATTR to one of `names`, dictionary item stores / deletes) instead of at every instruction; windows of one
+    or two instructions between two stores (clear-then-set) or between a store and the matching read are hit with probability
+    p_store instead of ~p.  A small uniform background rate and the sync-point coins stay on.  Replay needs nothing new: the switch
+    list records the step of every pre-emption."""
+    r = random.Random(run_seed ^ 0x5707E5)
+    if r.random() >= share or sched.get("sync_only"):
+        return sched
+    s = dict(sched)
+    s.update({"strategy": "store", "p_store": r.choice([0.15, 0.3, 0.3, 0.6]), "p": r.choice([0.0, 0.002, 0.01]),
+              "sync_p": r.choice([0, 0, 0.1]), "store_names": sorted(names)})
+    s.pop("d", None)
+    s.pop("at", None)
+    return s
+
+
 class Scheduler:
     def __init__(self, modules, sched: dict, seed: int, step_cap: int = DEFAULT_STEP_CAP, n_est: int | None = None,
                  t0_us: int = 1_767_225_600_000_000, n_sync_est: int | None = None):
@@ -488,6 +539,12 @@ class Scheduler:
         self.sync_events = 0
         self._sync_p = float(self.cfg.get("sync_p", 0))
         self._focus_lock = self.cfg.get("focus_lock")
+        self._p_store = float(self.cfg.get("p_store", 0))
+        self._store_pts: dict = {}
+        self.preempt_store = 0
+        if self._mode == "store":
+            for m in self.modules:
+                self._store_pts.update(store_points(m, self.cfg.get("store_names", ())))
         self._sync_points: dict = {}
         self._one_sync_at = None
         self.n_sync_est = None
@@ -604,6 +661,20 @@ class Scheduler:
                 if cand:
                     self.preemptions += 1
                     self._switch(cur, cand[int(self._rng.random() * len(cand))], "preempt", code, offset)
+        elif mode == "store":
+            pts = self._store_pts.get(code)
+            if pts is not None and offset in pts:
+                if self._rng.random() < self._p_store:
+                    cand = self._eligible(cur)
+                    if cand:
+                        self.preemptions += 1
+                        self.preempt_store += 1
+                        self._switch(cur, cand[int(self._rng.random() * len(cand))], "preempt", code, offset)
+            elif self._p and self._rng.random() < self._p:
+                cand = self._eligible(cur)
+                if cand:
+                    self.preemptions += 1
+                    self._switch(cur, cand[int(self._rng.random() * len(cand))], "preempt", code, offset)
         elif mode == "pct":
             pr = self._points.get(s)
             if pr is not None:
@@ -647,7 +718,7 @@ class Scheduler:
         self.sync_events = n
         mode = self._mode
         to = None
-        if mode == "random":
+        if mode == "random" or mode == "store":
             if self._sync_p and (self._focus_lock is None or self._focus_lock in lock.name) and self._rng.random() < self._sync_p:
                 cand = self._eligible(me)
                 if cand:
